@@ -22,6 +22,30 @@ Theorem C08_no_panic : forall ctx sender p,
 Proof. exact no_panic. Qed.
 Print Assumptions C08_no_panic.
 
+(* Arrival while the parent is busy: the proposal arrives in situation ctx0 (the parent is looked up),
+   waits for the parent's machine mutex, and is validated in the situation ctx1 held under the lock.
+   The handler is only reached with a proposal that is good for ctx1; whatever changed in between. *)
+Theorem C08_drop_bad_locked : forall ctx0 ctx1 sender p,
+  handle_proposal_locked repaired ctx0 ctx1 sender p = HandlerCalled -> GoodProposal ctx1 sender p.
+Proof. exact drop_bad_locked. Qed.
+Print Assumptions C08_drop_bad_locked.
+Theorem C08_no_panic_locked : forall ctx0 ctx1 sender p,
+  ctx_ok ctx1 = true -> parent_stays ctx0 ctx1 p ->
+  handle_proposal_locked repaired ctx0 ctx1 sender p <> Panic.
+Proof. exact no_panic_locked. Qed.
+Print Assumptions C08_no_panic_locked.
+(* validating when the message arrives (before the lock) violates it *)
+Theorem C08_early_validation_refuted :
+  handle_proposal_early repaired exCtxA exCtxA_after wB exSub = HandlerCalled
+  /\ ~ GoodProposal exCtxA_after wB exSub.
+Proof. exact early_validation_refuted. Qed.
+Print Assumptions C08_early_validation_refuted.
+Example C08_locked_nonvacuous :
+  handle_proposal_locked repaired exCtxA exCtxA_after wB exSub = Dropped
+  /\ handle_proposal_locked repaired exCtxA_after exCtxA wB exSub = HandlerCalled
+  /\ parent_stays exCtxA exCtxA_after exSub /\ ctx_ok exCtxA_after = true.
+Proof. exact locked_examples. Qed.
+
 (* the hypothesis is not redundant in the model *)
 Example C08_no_panic_needs_ctx_ok :
   ctx_ok exCtxNarrow = false /\ handle_proposal exCtxNarrow wB exVirtGood = Panic.
